@@ -1,0 +1,17 @@
+//go:build verif
+// +build verif
+
+package fuse
+
+import "github.com/jacobsa/fuse/fuseutil"
+
+// Verification hooks (add-only, compiled only with -tags verif).
+//
+// A kernel FUSE mount is not available to the property checks: they talk to the very
+// fuseutil.FileSystem the kernel would talk to, which lives in an unexported field.
+
+// VerifFileSystem returns the file system implementation served by a read-only mount.
+func (dfs *ReadOnlyFS) VerifFileSystem() fuseutil.FileSystem { return dfs.fsInternal }
+
+// VerifFileSystem returns the file system implementation served by a mutable mount.
+func (dfs *MutableFS) VerifFileSystem() fuseutil.FileSystem { return dfs.fsInternal }
